@@ -1,7 +1,7 @@
 SPECIFICATION Spec
 CONSTANTS
   Objects = {"o1","o2"}
-  Contents = {"shallow","nested","deeper","badscan","badrule","badvalue","usesT","typeT","orset","rich","typeU"}
+  Contents = {"shallow","nested","deeper","badscan","badrule","badvalue","usesT","typeT","orset","rich","typeU","blank","comment"}
   Ops = {"Check","Example","GetAST","Len","Used","OpenAPI"}
   MaxCalls = 5
 INVARIANTS TypeOK Emit
